@@ -24,6 +24,9 @@ def impl(case):
     with C.scratch_dir() as d:
         m = D.load(D.write_dataset(d, case['spec']))
         try:
+            if case.get('only_depths'):
+                dep = m.get_depths()
+                return dict(depths=None if dep is None else [None if np.isnan(x) else float(x) for x in dep])
             out = dict(n_templates=int(m.n_templates), n_clusters=int(m.n_clusters))
             for use in ('templates', 'clusters'):
                 try:
@@ -58,9 +61,15 @@ def model_query(case, impl_res):
     if 'ok' not in impl_res:
         return dict(p=PID, op='mean_amps', ids=[0], amplitudes=[1])
     ok = impl_res['ok']
-    wmi = DC.fracs(ok['wmi'])
     amps = DC.fracs(spec['amplitudes'])
     qs = []
+    if case.get('only_depths'):
+        qs.append(dict(op='depths', feat0=DC.fracs([[row for row in f[0]] for f in spec['pc_features']]),
+                       cols=spec['pc_feature_ind'], ys=DC.fracs([p[1] for p in spec['channel_positions']]),
+                       spike_templates=spec['spike_templates']))
+        q['qs'] = qs
+        return q
+    wmi = DC.fracs(ok['wmi'])
     for use in ('templates', 'clusters'):
         a = ok['amps_' + use]
         if 'raised' in a:
@@ -97,6 +106,13 @@ def judge(case, impl_res, ans):
     sr = spec['sample_rate']
     curated = spec.get('spike_clusters') is not None and spec['spike_clusters'] != spec['spike_templates']
     k = 0
+    if case.get('only_depths'):
+        exp = [DC.to_float(x) for x in res[0]['model']]
+        if ok['depths'] is None or len(ok['depths']) != len(exp) or \
+                not all(_close(x, y, 1e-12) for x, y in zip(ok['depths'], exp)):
+            bad = [i for i, (x, y) in enumerate(zip(ok['depths'] or [], exp)) if not _close(x, y, 1e-12)][:3]
+            return 'SPEC: spike depths differ from the feature-weighted channel depths at spikes %s of %d' % (bad, len(exp))
+        return None
     for use in ('templates', 'clusters'):
         a = ok['amps_' + use]
         if 'raised' in a:
@@ -148,7 +164,8 @@ def nontrivial(case):
 def tally(rep, case, impl_res, ans):
     spec = case['spec']
     rep.count('curated:%s' % (spec.get('spike_clusters') is not None))
-    rep.count('whitening:%s' % ('none' if spec.get('whitening') is None else ('inv_file' if spec.get('whitening_inv') is not None else 'computed_inv')))
+    wh = spec.get('whitening')
+    rep.count('whitening:%s%s' % ('none' if wh is None else ('nonsymmetric_' if any(wh[i][j] != wh[j][i] for i in range(len(wh)) for j in range(len(wh))) else 'diagonal_'), '' if wh is None else ('inv_file' if spec.get('whitening_inv') is not None else 'computed_inv')))
     nt = len(spec['templates'])
     used = set(spec['spike_templates'])
     for t, name in ((0, 'first'), (nt - 1, 'last')):
@@ -173,3 +190,10 @@ def gen(tier, rng):
         empty = ['none', 'first', 'middle', 'last'][i % 4] if i < 60 else 'random'
         spec = DC.dense_spec(rng, empty=empty, feats=(i % 5 != 4), probes=(i % 3 == 0))
         yield dict(p=PID, spec=spec, factor=[1., 2.5, 1.][i % 3])
+    # get_depths works in batches of 50000 spikes: one more than a full batch, and exactly one batch
+    for ns in ((50001,) if q else (50001, 50000, 100001)):
+        spec = DC.dense_spec(rng, nt=3, nc=3, ns=ns, nsw=2, curated=False, whiten='none', feats=True, empty='none')
+        spec['pc_features'] = [[[float((i * 7 + k) % 5 + (0 if i % 11 == 3 else 1)) for k in range(2)], [0., 0.]] for i in range(ns)]
+        spec['pc_feature_ind'] = [[0, 1], [1, 2], [2, 0]]
+        spec['spike_samples'] = list(range(ns))
+        yield dict(p=PID, spec=spec, factor=1., only_depths=True)
